@@ -34,6 +34,9 @@ ENGINES = [
 
 NOTES = ("Extraction is cross-checked: for C01/C12/C13/C14/C15/C17 and all optimiser properties (C05-C08, C18-C20) a sample of cases is also evaluated by vm_compute inside Coq and "
          "compared there with the implementation's recorded values.  Thorough tier: coqchk re-checks the compiled theorems.  "
+         "The crate's numeric formulas (acceptance rule, cooling factor, clamp/sample, LJ energy, pair predicates, cell area, "
+         "lens area, shell count, score) are re-translated from the source text on every run (bin/rs2coq.py -> gen/GenFns.v) and "
+         "proved equal to the model's definitions (proofs/SourceFacts.v).  "
          "Every claimed check = (1) proof gate: full coqc build of coq/props/<id>.v and its dependencies, Print "
          "Assumptions allowlist, forbidden-token scan; (2) correspondence of the executable model with /repo's "
          "current working tree; (3) direct monitors that search for a concrete failing input.  See DESIGN.md.")
